@@ -1,11 +1,15 @@
 """C26 -- binary XML is converted to the XML tree it encodes (DESIGN.md section 6, C26).
 
-P: Props/C26.lean over Model/Axml.lean (string pool, event machine, printer, _fix_name, _fix_value, format_value) and
-   Spec/Axml.lean (abstract tree, events, encoder of pool strings and chunks).
+P: Props/C26.lean over Model/Axml.lean (string pool, event machine, printer, _fix_name, _fix_value, format_value),
+   Spec/Axml.lean (abstract tree, events, encoder of pool strings) and Spec/AxmlFile.lean (byte encoding of whole documents):
+   axml_roundtrip = the printer on `encodeAxml E d` returns `treeOf d` for every well-formed document and encoding choice.
 T: real AXMLPrinter / StringBlock / CPython decoders / _fix_value / format_value  vs  the compiled Lean model (drv_C26):
    random well-formed trees from the independent writer (UTF-8 / UTF-16 pools, narrow and wide length prefixes), hostile
    trees (names and values to repair, duplicate attributes, contradictory resource ids), structurally broken chunk
    sequences, byte-mutated files, the shipped AXML files and APK manifests.
+   The specification encoder itself is tied to the code: `encodeAxml` (compiled, `spec` request) writes byte for byte what the
+   independent writer writes for the generated documents it can express, and on those that satisfy `wfDoc` the real printer
+   returns `treeOf` (streams spec-encoder, spec-tree).
 S: oracle = the generator's tree (harness/axmlgen.expected), compared with get_xml_obj() and with a re-parse of get_xml().
 """
 import glob
@@ -136,6 +140,49 @@ def real_fixval(s: str):
         return cps(p._fix_value(s))
     except Exception as e:  # noqa
         return "exc " + type(e).__name__
+
+
+# ------------------------------------------------------------------ the file-level specification (Spec/AxmlFile.lean)
+def spec_request(tree, utf8, wide):
+    """the `spec` request of drv_C26 for a writer tree: the Lean specification encoder `encodeAxml` is asked for the bytes of the
+    same document over the writer's pool.  None = outside what the specification's source documents express (a comment, an
+    explicit raw value, a pool that holds one string twice -- the specification refers to strings by first occurrence)."""
+    data, info = W.encode_axml_ex(tree, utf8=utf8, wide_lengths=wide)
+    strings, ids = info["strings"], info["resource_map"]
+    if len(set(strings)) != len(strings):
+        return None
+    toks = []
+
+    def opt(x):
+        return "!" if x is None else cps(x)
+
+    def walk(e):
+        if e.comment is not None:
+            return False
+        toks.extend(["E", "%x" % (e.line & 0xFFFFFFFF), cps(e.tag), opt(e.ns), "%x" % len(e.nsdecls)])
+        for p_, u_ in e.nsdecls:
+            toks.extend([cps(p_), cps(u_)])
+        toks.append("%x" % len(e.attrs))
+        for a in e.attrs:
+            if a.raw is not None:
+                return False
+            v = a.value
+            if v.type == W.TYPE_STRING and isinstance(v.data, str):
+                toks.extend([opt(a.ns), cps(a.name), "ffffffff", "3", "0", cps(v.data)])
+            else:
+                toks.extend([opt(a.ns), cps(a.name), "ffffffff", "%x" % (v.type & 0xFF), "%x" % (int(v.data) & 0xFFFFFFFF), "-"])
+        toks.append("%x" % len(e.children))
+        for c in e.children:
+            if isinstance(c, W.Text):
+                toks.extend(["T", "%x" % (e.line & 0xFFFFFFFF), cps(c.text)])
+            elif not walk(c):
+                return False
+        return True
+
+    if not walk(tree):
+        return None
+    res = "none" if not ids else ",".join("%x" % (i & 0xFFFFFFFF) for i in ids)
+    return "spec %d%d %s %s %s" % (utf8, wide, res, "|".join(cps(x) for x in strings) if strings else "~", "/".join(toks))
 
 
 # ------------------------------------------------------------------ generators
@@ -307,6 +354,7 @@ def run(ck: Check):
     n_wf = 1500 if ck.quick else 60000
     datas, reals, dist = [], [], {"wf_utf8": 0, "wf_utf16": 0, "wf_wide": 0, "wf_elements": 0, "wf_attrs": 0, "wf_texts": 0, "wf_resid_attrs": 0}
     types_seen, distinct, samples, nser = set(), [], [], 0
+    spec_reqs, spec_writer, spec_real = [], [], []
     for i in range(n_wf):
         tree = axmlgen.gen_tree(rng, max_depth=rng.choice((1, 2, 3, 4)), sysattrs=sysattrs)
         utf8, wide = rng.random() < 0.5, rng.random() < 0.3
@@ -318,6 +366,9 @@ def run(ck: Check):
         if ok and i % 4 == 0:
             judge_serialised(ck, tree, pr, case); nser += 1
         datas.append(data); reals.append(reply)
+        sr = spec_request(tree, utf8, wide)
+        if sr is not None:
+            spec_reqs.append(sr); spec_writer.append(data.hex()); spec_real.append(reply)
         st = axmlgen.tree_stats(tree)
         dist["wf_utf8" if utf8 else "wf_utf16"] += 1
         dist["wf_wide"] += wide
@@ -328,6 +379,16 @@ def run(ck: Check):
         if i in (3, 700):
             samples.append({"axml_len": len(data), "utf8": utf8, "wide": wide, "real": reply[:160]})
     correspond("axml-wellformed", datas, reals)
+    # the specification encoder of the theorems (Spec/AxmlFile.lean `encodeAxml`) writes the bytes the independent writer
+    # writes; on the documents that satisfy the theorems' hypothesis `wfDoc` the real printer returns the tree `treeOf`
+    sp = [r.split(" ") for r in drv.ask(spec_reqs)]
+    short = [q if len(q) < 4000 else q[:4000] + "..." for q in spec_reqs]
+    ck.compare("spec-encoder", short, ["ok " + h for h in spec_writer], [" ".join(r[:1] + r[2:3]) for r in sp])
+    wf_idx = [k for k, r in enumerate(sp) if len(r) == 4 and r[1] == "1" and resolve_marks(r[3]) is not None]
+    ck.compare("spec-tree", [short[k] for k in wf_idx], [spec_real[k] for k in wf_idx],
+               ["ok 1 " + resolve_marks(sp[k][3]) for k in wf_idx])
+    dist["spec_documents"] = len(spec_reqs)
+    dist["spec_documents_wfDoc"] = sum(1 for r in sp if len(r) == 4 and r[1] == "1")
     dist["wf_value_types_seen"] = len(types_seen)
     dist["wf_reparsed_get_xml"] = nser
     ck.cover(evaluations=n_wf, distinct=distinct, samples=samples, dist=dist)
